@@ -17,7 +17,8 @@ import MdVerif.Driver.Image
 import MdVerif.Driver.Descr
 import MdVerif.Driver.Hbond
 import MdVerif.Driver.Dssp
-open MdVerif MdVerif.Driver MdVerif.Driver.TrajP MdVerif.Driver.TopoP MdVerif.Driver.WriterP MdVerif.Driver.SelP MdVerif.Driver.MicP MdVerif.Driver.CellP MdVerif.Driver.NbP MdVerif.Driver.AngP MdVerif.Driver.SasaP MdVerif.Driver.QcpP MdVerif.Driver.ImageP MdVerif.Driver.DescrP MdVerif.Driver.HbP MdVerif.Driver.DsspP
+import MdVerif.Driver.Formats
+open MdVerif MdVerif.Driver MdVerif.Driver.TrajP MdVerif.Driver.TopoP MdVerif.Driver.WriterP MdVerif.Driver.SelP MdVerif.Driver.MicP MdVerif.Driver.CellP MdVerif.Driver.NbP MdVerif.Driver.AngP MdVerif.Driver.SasaP MdVerif.Driver.QcpP MdVerif.Driver.ImageP MdVerif.Driver.DescrP MdVerif.Driver.HbP MdVerif.Driver.DsspP MdVerif.Driver.FmtP
 
 def handle (line : String) : String :=
   let ws := (line.splitOn " ").filter (· ≠ "")
@@ -36,6 +37,7 @@ def handle (line : String) : String :=
   | "contacts" :: _ | "allpairs" :: _ | "moments" :: _ | "drid" :: _ | "wsums" :: _ => handleDescr ws
   | "hbtrip" :: _ | "bh" :: _ | "wn" :: _ | "ks" :: _ => handleHb ws
   | "dssp" :: _ => handleDssp ws
+  | "fmtq" :: _ | "rstnames" :: _ => handleFmt ws
   | "imgorder" :: _ | "imgvalid" :: _ | "imgwhole" :: _ | "imgwrap" :: _ => handleImage ws
   | _ => "bad-op"
 
